@@ -16,7 +16,7 @@ RULE = ('surfaces: round-robin over 8 shift-vector classes (rectangular/oblique 
         '5 profile classes x 3 tau x 5 alpha x 4 beta classes x 6 grid sizes.  A case is non-trivial when the data are '
         'not constant and the shift vectors are neither unit Cartesian axes; distinct = fingerprint of the inputs.')
 ASSUMPTIONS = ['gamma-surface data are periodic (a duplicated a=1 edge carries the a=0 values) on uniform grids that contain 0',
-               'node tolerance 1e-7 of the data range; periodicity / coordinate-interchange tolerance 1e-8 of the range '
+               'node tolerance 1e-8 of the data range (observed < 1e-12); periodicity / coordinate-interchange tolerance 1e-10 of the range x basis condition number '
                '(the multiquadric interpolant amplifies 1e-16 argument differences by its coefficient size)',
                'K tensor of the Volterra solution is an input (C12 decides it); the oracle only re-labels it into the [m,n,xi] order',
                'half-width clause: compared with the minimiser of the continuum functional on the same finite window '
@@ -186,7 +186,7 @@ def surface_case(ctx, am, i):
             key = f'nodes:{name}:{"smooth" if smooth else "nearest"}:{S["layout"]}'
             with ctx.guard(f'{name} evaluates at the sampled shifts', key + ':exception'):
                 got = f(a1=np.array(S['a1']), a2=np.array(S['a2']), smooth=smooth)
-                rec.close(1e-7 * rng_, got, vals, f'{name} at every sampled (a1,a2) equals the input value', key, layout=S['layout'], grid=(n1, n2))
+                rec.close(1e-8 * rng_, got, vals, f'{name} at every sampled (a1,a2) equals the input value', key, layout=S['layout'], grid=(n1, n2))
                 rec.count(f'nodes:{name}', len(vals))
                 if S['layout'] == 'dup':
                     rec.count('nodes:on-duplicated-edge', int(np.sum((S['a1'] == 1.0) | (S['a2'] == 1.0))))
@@ -196,22 +196,23 @@ def surface_case(ctx, am, i):
             p, q = (int(t) for t in rng.integers(-3, 4, 2))
             with ctx.guard(f'{name} evaluates at one (a1,a2) pair', f'nodes:{name}:scalar:exception'):
                 got = f(a1=k / n1 + p, a2=l / n2 + q)
-                rec.close(1e-7 * rng_, np.asarray(got).reshape(()), table[k, l], f'{name} at a sampled shift plus whole periods equals the input value',
+                rec.close(1e-8 * rng_, np.asarray(got).reshape(()), table[k, l], f'{name} at a sampled shift plus whole periods equals the input value',
                           f'nodes:{name}:scalar-periodic', k=k, l=l, p=p, q=q)
 
     # -- clause 2: periodicity ------------------------------------------------
     cushion = 0.0 if S['layout'] == 'dup' else 0.5 / n1
-    generic, hard = gen.query_points(rng, 12, n1, n2, cushion)
+    generic, hard, edge = gen.query_points(rng, 12, n1, n2, cushion)
     pqs = gen.periods(rng, 6)
     for name, f, vals, table, rng_ in funcs:
-        for cls, pts, smooths in (('generic', generic, (True, False)), ('boundary', hard, (True,))):
+        for cls, pts, smooths in (('generic', generic, (True, False)), ('boundary', hard, (True,)), ('integer-edge', edge, (True,)),
+                                  ('integer-edge', edge[:-1], (False,))):      # the last edge point sits on a nearest-node tie
             for smooth in smooths:
                 key = f'periodic:{name}:{"smooth" if smooth else "nearest"}:{cls}'
                 with ctx.guard(f'{name} evaluates at displaced points', key + ':exception'):
                     base = f(a1=pts[:, 0].copy(), a2=pts[:, 1].copy(), smooth=smooth)
                     for p, q in pqs:
                         got = f(a1=pts[:, 0] + p, a2=pts[:, 1] + q, smooth=smooth)
-                        rec.close(1e-8 * rng_, got, base, f'{name}(a1+p, a2+q) = {name}(a1, a2) for integer p, q in [-3,3]', key,
+                        rec.close(1e-10 * rng_, got, base, f'{name}(a1+p, a2+q) = {name}(a1, a2) for integer p, q in [-3,3]', key,
                                   p=int(p), q=int(q), pts=pts)
                         rec.count('periodic:evaluations', len(pts))
                     rec.count(f'periodic:{cls}')
@@ -272,8 +273,8 @@ def surface_case(ctx, am, i):
                 e_a = f(a1=wrap(a1), a2=wrap(a2))
                 e_p = f(pos=wrap(pos_exp))
                 e_x = f(x=wrap(x_exp), y=wrap(y_exp), **kx)
-                rec.close(1e-8 * rng_ * kappa, e_p, e_a, f'{name}(pos=) = {name}(a1=, a2=)', key + ':pos', a1=a1, a2=a2)
-                rec.close(1e-8 * rng_ * kappa, np.asarray(e_x).reshape(np.shape(e_a)), e_a, f'{name}(x=, y=) = {name}(a1=, a2=)', key + ':xy', a1=a1, a2=a2)
+                rec.close(1e-10 * rng_ * kappa, e_p, e_a, f'{name}(pos=) = {name}(a1=, a2=)', key + ':pos', a1=a1, a2=a2)
+                rec.close(1e-10 * rng_ * kappa, np.asarray(e_x).reshape(np.shape(e_a)), e_a, f'{name}(x=, y=) = {name}(a1=, a2=)', key + ':xy', a1=a1, a2=a2)
                 rec.count('interchange:evaluations', N)
     # one position given as a bare (3,) vector / scalars
     a1s, a2s = (float(t) for t in rng.uniform(-1.5, 2.5, 2))
@@ -288,8 +289,8 @@ def surface_case(ctx, am, i):
         rec.close(1e-11 * L * 4, np.asarray(gs.xy_to_pos(float(x1[0]), float(y1[0]), **kx)).reshape(-1), p1, 'xy_to_pos of scalars', 'conv:xy_to_pos:single')
         for name, f, vals, table, rng_ in funcs:
             e_a = float(f(a1=a1s, a2=a2s))
-            rec.close(1e-8 * rng_ * kappa, float(f(pos=p1)), e_a, f'{name}(pos=) = {name}(a1=, a2=)', f'interchange:{name}:single:pos')
-            rec.close(1e-8 * rng_ * kappa, float(np.asarray(f(x=float(x1[0]), y=float(y1[0]), **kx)).reshape(-1)[0]), e_a,
+            rec.close(1e-10 * rng_ * kappa, float(f(pos=p1)), e_a, f'{name}(pos=) = {name}(a1=, a2=)', f'interchange:{name}:single:pos')
+            rec.close(1e-10 * rng_ * kappa, float(np.asarray(f(x=float(x1[0]), y=float(y1[0]), **kx)).reshape(-1)[0]), e_a,
                       f'{name}(x=, y=) = {name}(a1=, a2=)', f'interchange:{name}:single:xy')
         rec.count('conv:single')
     # alternative shift vectors: coordinates along (a1+a2, a2) or (a1, a2-a1) name the same positions
@@ -305,7 +306,7 @@ def surface_case(ctx, am, i):
             with ctx.guard('E_gsf accepts alternative shift vectors', f'altvect:exception:N={N}'):
                 got = gs.E_gsf(a1=ab[:, 0], a2=ab[:, 1], a1vect=v1, a2vect=v2)
                 exp = gs.E_gsf(a1=s1, a2=s2)
-                rec.close(1e-8 * R * kappa, got, exp, 'E_gsf(a1, a2, a1vect=, a2vect=) is the energy at the same Cartesian position', f'altvect:E_gsf:N={N}')
+                rec.close(1e-10 * R * kappa, got, exp, 'E_gsf(a1, a2, a1vect=, a2vect=) is the energy at the same Cartesian position', f'altvect:E_gsf:N={N}')
                 pa = gs.a12_to_pos(ab[:, 0], ab[:, 1], a1vect=v1, a2vect=v2)
                 rec.close(1e-12 * L * 8, pa, pos_alt, 'a12_to_pos with alternative vectors', f'altvect:a12_to_pos:N={N}')
                 r1, r2 = gs.pos_to_a12(pos_alt, a1vect=v1, a2vect=v2)
@@ -318,7 +319,7 @@ def surface_case(ctx, am, i):
         with ctx.guard('E_gsf accepts 2-D coordinate arrays', 'grid2d:exception'):
             got = gs.E_gsf(a1=A1g, a2=A2g)
             exp = np.array([[float(gs.E_gsf(a1=float(A1g[r, c]), a2=float(A2g[r, c]))) for c in range(4)] for r in range(3)])
-            rec.close(1e-8 * R, got, exp, 'E_gsf of a 2-D coordinate array is elementwise', 'grid2d:E_gsf')
+            rec.close(1e-10 * R, got, exp, 'E_gsf of a 2-D coordinate array is elementwise', 'grid2d:E_gsf')
 
     # -- clause 5: model round trip -------------------------------------------
     units = [dict(), dict(length_unit='nm', energyperarea_unit='eV/angstrom^2')][i % 2]
@@ -466,7 +467,7 @@ def pn_case(ctx, am, i):
         got[name] = float(v)
         tol = 1e-9 * mag + 1e-300
         if name == 'misfit':
-            tol = (1e-7 if gam is not None else 1e-8) * Rg * len(x) * abs(x[1] - x[0])
+            tol = (1e-8 if gam is not None else 1e-9) * Rg * len(x) * abs(x[1] - x[0])
         if name == 'stress' and broken_stress:
             ok1 = abs(v - e) <= tol
             e2, mag2 = O.stress_full(x, d, pn.tau, True, centred_weight=True)
@@ -552,8 +553,8 @@ def solve_case(ctx, am, i):
     cls['profile'] = ['arctan', 'rough', 'smooth'][i % 3]
     P = gen.gen_pn(rng, i, cls)
     method = 'Powell' if i % 4 != 3 else 'Nelder-Mead'
-    N = [9, 13, 17, 25][i % 4] if not ctx.quick else [9, 13, 11, 15][i % 4]
-    maxiter = 1 if N > 13 else 2
+    N = [9, 13, 17, 25][i % 4] if not ctx.quick else [7, 11, 9, 13][i % 4]
+    maxiter = 1 if N > 9 else 2
     sig = ('solve', P['cell'], P['K'], cls['profile'], N, method, maxiter)
     pn = info = None
     with ctx.guard('an SDVPN object can be built', f'solve:build:{P["cell"]}'):
@@ -567,7 +568,7 @@ def solve_case(ctx, am, i):
     rec.case(sig, nontrivial=True, fp=fingerprint(x, d, P['C']))
     e0 = float(pn.total_energy(x, d))
     first, last = d[0].copy(), d[-1].copy()
-    opts = dict(maxiter=maxiter) if method == 'Powell' else dict(maxiter=40 * N)
+    opts = dict(maxiter=maxiter) if method == 'Powell' else dict(maxiter=20 * N)
     ok = False
     with ctx.guard('solve() runs', f'solve:exception:{method}'):
         pn.solve(x=x, disregistry=d.copy(), min_method=method, min_options=opts)
@@ -610,7 +611,7 @@ def halfwidth_case(ctx, am, i):
     b = np.asarray(info['b'], float)
     bn = float(np.linalg.norm(b))
     Kb2 = float(b @ info['K'] @ b)
-    zs_b = rng.uniform(1.0, 2.0) if ctx.quick else rng.uniform(1.0, 3.0)
+    zs_b = rng.uniform(1.0, 1.5) if ctx.quick else rng.uniform(1.0, 2.5)
     zs = zs_b * bn
     gamma0 = Kb2 / (4 * np.pi ** 2 * zs)
     # same object, energies rescaled to gamma0
@@ -618,7 +619,7 @@ def halfwidth_case(ctx, am, i):
     pn, info = build_pn(ctx, am, P2, i, with_settings=False, table=gamma0 * unit_table, grid=(n1, n2))
     div = rng.uniform(10.5, 14.0)
     dx = bn / div
-    Xf = [25, 30, 40][i % 3]
+    Xf = [8, 12, 16][i % 3]
     N = int(2 * Xf * zs / dx) | 1
     X = dx * (N - 1) / 2
     zw = O.window_halfwidth(X, Kb2, gamma0)
@@ -698,15 +699,17 @@ def run(ctx):
     rec = ctx.rec
     cover.start([GS_FILE, PN_FILE])
     install_monitors(rec, am)
+    bad = O.selfcheck()
+    rec.check(not bad, 'oracle reproduces its closed-form hand checks', 'oracle:selfcheck', failed=bad)
 
     import time
     groups = [('surfaces', ctx.pick(152, 1344), surface_case), ('pn', ctx.pick(48, 640), pn_case), ('solve', ctx.pick(8, 32), solve_case),
               ('halfwidth', ctx.pick(8, 16), halfwidth_case), ('arctan', ctx.pick(48, 480), arctan_case)]
     for name, n, fn in groups:
-        t0 = time.time()
+        t0 = time.process_time()
         for i in ctx.cases(name, n):
             fn(ctx, am, i)
-        rec.count('time_ms:' + name, int(1000 * (time.time() - t0)))
+        rec.count('cpu_ms:' + name, int(1000 * (time.process_time() - t0)))
 
     for k, v in monitor.calls.items():
         if isinstance(v, int):
@@ -733,6 +736,7 @@ def declare_floors(rec, ctx):
     f('nodes:on-duplicated-edge', 200)
     f('periodic:evaluations', 5000)
     f('periodic:boundary', 100)
+    f('periodic:integer-edge', 100)
     for N in gen.NPOS:
         f(f'conv:sets:N={N}', 100)
     f('conv:input:list', 100)
